@@ -10,10 +10,12 @@ func TestMain(m *testing.M) { vkit.Main(m) }
 
 func TestProp_Sessions(t *testing.T) { PartSess.Run(t) }
 func TestProp_Server(t *testing.T)   { PartSrv.Run(t) }
+func TestProp_Paced(t *testing.T)    { PartPaced.Run(t) }
 func TestRace_Sessions(t *testing.T) { PartSessRace.Run(t) }
 
 func TestReplay(t *testing.T) {
 	PartSess.Replay(t, 10)
 	PartSrv.Replay(t, 5)
+	PartPaced.Replay(t, 3)
 	PartSessRace.Replay(t, 10)
 }
